@@ -111,6 +111,8 @@ def generate(streams: core.Streams, tier: str) -> dict:
         if gen.chance(w, 0.2):
             spec["transformations"].insert(0, {"type": "file_placeholders", "path": "@SCRATCH@/values.txt",
                                                "include": ["servers"]})
+            if gen.chance(w, 0.5):
+                spec["transformations"][0]["filter"] = gen.pick(w, ["^srvA", "B", "srv"])
         pipelines[f"p{i}"] = spec
     class_pipelines: dict[str, dict] = {}
     for cls in CLASSES:
